@@ -41,6 +41,7 @@ GEN_NOTE = (
 
 PROPS = {
     "C01": dict(
+        require_observed=['multi_section', 'zero_length', 'at_chrom_end', 'huge_chrom', 'ips_65535'],
         level="exploration",
         floor=50,
         builds=["harness"],
@@ -67,10 +68,14 @@ PROPS = {
         assumptions=["same sink assumption as C01"],
     ),
     "C03": dict(
+        require_observed=['cached_queries_served_without_underlying_reads', 'cache_reset_hits', 'cache_reset_misses', 'empty_range_queries', 'values_calls'],
         level="exploration",
         floor=50,
         builds=["harness"],
-        legs=_legs_simple("c03", 1500, 20000),
+        legs=lambda tier, seed, scratch: [
+            dict(cmd="c03", name="c03", cases=_q(tier, 1500, 20000)),
+            dict(cmd="c03r", name="c03-concurrent-reopened-readers", cases=_q(tier, 96, 1500), stall_s=60),
+        ],
         rule=GEN_NOTE + "items_per_slot in {1,2,3,5}, block_size in {2,3,4} so ranges cross blocks and index nodes. Per case one "
         "file and a history of 120 (quick) / 300 (thorough) queries against one plain reader, one caching reader, one "
         "reopened reader (and 1 in 8 times a ReopenableFile on disk): ends drawn from the boundary set {0, len, a, b, "
@@ -80,10 +85,15 @@ PROPS = {
         "membership but may only appear inside [s,e]; values() bitwise vs NaN-filled model; all readers identical. "
         "Case 0 is the 5000-entry block-cache reset scenario (5300 one-item blocks, each touched once, first 400 again, "
         "then every 7th backwards); cache hits are observed as queries served with zero underlying reads. "
-        "Non-trivial = some chromosome spans >= 2 sections; distinct by hash of (file, query history).",
-        assumptions=["writer correctness is C01's business: a failed write is counted as blocked"],
+        "Non-trivial = some chromosome spans >= 2 sections; distinct by hash of (file, query history). "
+        "Second leg: the file is put on disk, opened with BigWigRead::open_file (ReopenableFile, the tools' own Reopen "
+        "implementation) and 2/4/8 reopened readers (every second one caching) are queried from as many threads at "
+        "once, 150 random ranges each, every answer judged by the same model: reopened readers must be independent of "
+        "each other's seeks and reads.",
+        assumptions=["writer correctness is C01's business: a failed write is counted as blocked", "the concurrent leg samples OS schedules; it cannot enumerate them"],
     ),
     "C04": dict(
+        require_observed=['cached_queries_served_without_underlying_reads', 'block_max_end_not_last', 'block_max_end_not_last_and_block_not_last_child'],
         level="exploration",
         floor=50,
         builds=["harness"],
@@ -97,6 +107,7 @@ PROPS = {
         assumptions=["writer correctness is C02's business: a failed write is counted as blocked", "no entry (0,0) is generated (C02's finding)"],
     ),
     "C05": dict(
+        require_observed=['levels=1', 'levels=2', 'levels=3', 'levels=4', 'last_node_partial', 'last_nodes_full', 'queries'],
         level="exploration",
         exhaustive=True,
         floor=50,
@@ -166,6 +177,7 @@ PROPS = {
         technique="runtime monitoring: independent encoder + content-model oracle over reader answers",
     ),
     "C11": dict(
+        require_observed=['handoff:file_arrived_before_first_write', 'handoff:mid_stream_from_memory', 'handoff:mid_stream_from_temp_file', 'handoff:after_the_writer_closed', 'converter_runs', 'runs_compared'],
         level="exploration",
         floor=20,
         builds=["harness"],
@@ -192,6 +204,7 @@ PROPS = {
         technique="runtime monitoring: differential digests across schedules + hook trace monitor + ThreadSanitizer",
     ),
     "C12": dict(
+        require_observed=['handoff:file_arrived_before_first_write', 'handoff:mid_stream_from_memory', 'handoff:mid_stream_from_temp_file', 'handoff:after_the_writer_closed', 'consumer_programs', 'miri_producer_consumer_runs'],
         level="exploration",
         floor=50,
         builds=["harness"],
@@ -222,6 +235,7 @@ PROPS = {
         technique="runtime monitoring: exhaustive call-order enumeration + delay-injected stress with trace + Miri + ThreadSanitizer",
     ),
     "C13": dict(
+        require_observed=['refused_with_error', 'valid_returned_ok', 'sink_rejected_after_refusal'],
         level="exploration",
         floor=50,
         builds=["harness", "relassert"],
@@ -245,6 +259,7 @@ PROPS = {
         technique="runtime monitoring: fault-class injection + result/panic/divergence monitors",
     ),
     "C14": dict(
+        require_observed=['fault_runs_delivered', 'crash_points', 'crash_points_accepted_as_complete', 'faults_write', 'faults_seek', 'fault_reported_as_error'],
         level="fault_enumeration",
         floor=20,
         builds=["harness"],
@@ -269,6 +284,7 @@ PROPS = {
         technique="runtime monitoring: recording / fault-injecting sink, exhaustive over operation indices per input",
     ),
     "C15": dict(
+        require_observed=['value_crosses_window_boundary', 'cancelling_or_explicit_zero', 'starts_at_base_0', 'merge_into_pairs'],
         level="exploration",
         floor=50,
         builds=["harness", "cli"],
@@ -331,6 +347,7 @@ PROPS = {
         technique="runtime monitoring: per-base reference model, cross-thread-count differential",
     ),
     "C18": dict(
+        require_observed=['files', 'op_sequences', 'chunker_calls', 'end_to_end_comparisons'],
         level="exploration",
         exhaustive=True,
         floor=50,
